@@ -15,7 +15,7 @@ use rustrtc::transports::dtls::{Certificate, fingerprint, generate_certificate};
 use std::collections::VecDeque;
 
 #[derive(Clone, Debug, PartialEq)]
-pub enum Act { Drop, Dup, Swap, FlipBody(u16), CertOther, CertEmpty, CertGarbage, Resign, CertOtherResign, FlipSig, FlipKey, FlipRandom, StripExt(u16), FlipCipher, Fragment(u16) }
+pub enum Act { Drop, Dup, Swap, FlipBody(u16), CertOther, CertEmpty, CertGarbage, Resign, CertOtherResign, FlipSig, FlipKey, FlipRandom, StripExt(u16), FlipCipher, Fragment(u16), FragDupMid(u16), FragReorder(u16) }
 
 #[derive(Clone, Debug, PartialEq)]
 pub struct Rule { pub from_client: bool, pub typ: u8, pub act: Act }
@@ -30,7 +30,7 @@ impl Script {
             Act::CertOther => "other".into(), Act::CertEmpty => "empty".into(), Act::CertGarbage => "garbage".into(), Act::Resign => "resign".into(),
             Act::CertOtherResign => "otherresign".into(), Act::FlipSig => "flipsig".into(), Act::FlipKey => "flipkey".into(),
             Act::FlipRandom => "fliprandom".into(), Act::StripExt(e) => format!("strip{e}"), Act::FlipCipher => "flipcipher".into(),
-            Act::Fragment(n) => format!("frag{n}") })).collect();
+            Act::Fragment(n) => format!("frag{n}"), Act::FragDupMid(n) => format!("fragdup{n}"), Act::FragReorder(n) => format!("fragreorder{n}") })).collect();
         format!("ce={} se={} {}", self.ce, self.se, if rs.is_empty() { "-".into() } else { rs.join(";") })
     }
     pub fn parse(s: &str) -> Script {
@@ -46,6 +46,7 @@ impl Script {
                 "garbage" => Act::CertGarbage, "resign" => Act::Resign, "otherresign" => Act::CertOtherResign, "flipsig" => Act::FlipSig,
                 "flipkey" => Act::FlipKey, "fliprandom" => Act::FlipRandom, "flipcipher" => Act::FlipCipher,
                 x if x.starts_with("flipbody") => Act::FlipBody(num("flipbody")), x if x.starts_with("strip") => Act::StripExt(num("strip")),
+                x if x.starts_with("fragdup") => Act::FragDupMid(num("fragdup")), x if x.starts_with("fragreorder") => Act::FragReorder(num("fragreorder")),
                 x if x.starts_with("frag") => Act::Fragment(num("frag")), x => panic!("bad act {x}") };
             rules.push(Rule { from_client: p[0] == "c>s", typ: p[1].parse().unwrap(), act });
         } }
@@ -119,6 +120,15 @@ fn apply(act: &Act, dg: &[u8], atk: &Attacker, randoms: &(Vec<u8>, Vec<u8>)) -> 
                 b.truncate(i); b.extend_from_slice(&(out.len() as u16).to_be_bytes()); b.extend_from_slice(&out);
             } })],
         Act::FlipCipher => { let mut d = dg.to_vec(); let n = d.len(); d[n - 20] ^= 1; vec![d] }
+        Act::FragDupMid(a) | Act::FragReorder(a) => {
+            // three fragments [0,a) [a,2a) [2a,..): the middle one twice, or the last two swapped
+            let r = &parse_records(dg)[0]; let m = &parse_hs(&r.body)[0];
+            let a = (*a as usize).min(m.body.len() / 3).max(1);
+            let piece = |lo: usize, hi: usize, k: u64| record_bytes(22, (r.vmaj, r.vmin), 0, r.seq + 100 * k,
+                &hs_bytes(m.typ, m.body.len() as u32, m.seq, lo as u32, &m.body[lo..hi]));
+            let (f1, f2, f3) = (piece(0, a, 0), piece(a, 2 * a, 1), piece(2 * a, m.body.len(), 2));
+            if matches!(act, Act::FragDupMid(_)) { vec![f1, f2.clone(), f2, f3] } else { vec![f1, f3, f2] }
+        }
         Act::Fragment(at) => {
             let r = &parse_records(dg)[0]; let m = &parse_hs(&r.body)[0];
             let at = (*at as usize).min(m.body.len());
@@ -131,7 +141,11 @@ fn apply(act: &Act, dg: &[u8], atk: &Attacker, randoms: &(Vec<u8>, Vec<u8>)) -> 
 
 pub struct Outcome { pub lines: Vec<(String, String)>, pub fails: Vec<(String, String)>, pub tags: Vec<String> }
 
-pub async fn run_script(sc: &Script) -> Option<Outcome> {
+pub async fn run_script(sc: &Script) -> Option<Outcome> { run_script_ticks(sc, 0).await }
+
+/// `max_ticks`: how many retransmission-timer rounds (real seconds) the network stays quiet-but-alive
+/// after the scripted faults, so the endpoints can recover (C11)
+pub async fn run_script_ticks(sc: &Script, max_ticks: u32) -> Option<Outcome> {
     let (cc, scert) = certs();
     let atk = Attacker::new();
     let bogus = fingerprint(&atk.cert);
@@ -148,7 +162,22 @@ pub async fn run_script(sc: &Script) -> Option<Outcome> {
     let mut held: (Option<Vec<u8>>, Option<Vec<u8>>) = (None, None);
     let mut randoms = (vec![], vec![]);
     let mut guard = 0;
-    while (!q_cs.is_empty() || !q_sc.is_empty()) && guard < 200 {
+    let mut ticks = 0;
+    loop {
+        if q_cs.is_empty() && q_sc.is_empty() {
+            // a held-back (swapped) datagram whose successor never came is released now
+            if let Some(h) = held.0.take() { for x in s.inject(&h, s_src).await { q_sc.push_back(x); } continue; }
+            if let Some(h) = held.1.take() { for x in c.inject(&h, c_src).await { q_cs.push_back(x); } continue; }
+            if ticks < max_ticks && !(c.ep.letter() == 'C' && s.ep.letter() == 'C') && c.ep.letter() != 'F' && s.ep.letter() != 'F' {
+                if c.unexpected_tick_possible() || s.unexpected_tick_possible() { return None; }
+                ticks += 1;
+                for x in c.tick().await { q_cs.push_back(x); }
+                for x in s.tick().await { q_sc.push_back(x); }
+                continue;
+            }
+            break;
+        }
+        if guard >= 400 { break; }
         guard += 1;
         let from_client = !q_cs.is_empty();
         let dg = if from_client { q_cs.pop_front().unwrap() } else { q_sc.pop_front().unwrap() };
@@ -174,7 +203,7 @@ pub async fn run_script(sc: &Script) -> Option<Outcome> {
     if c.unexpected_tick_possible() || s.unexpected_tick_possible() { return None; }
     // ---- after the handshake attempt: application data and exporter
     let mut fails = vec![];
-    let mut tags = vec![format!("final:{}{}", c.ep.letter(), s.ep.letter())];
+    let mut tags = vec![format!("final:{}{}", c.ep.letter(), s.ep.letter()), format!("ticks_used:{ticks}")];
     let text = sc.text();
     for from_client in [true, false] {
         let (a, b, b_src) = if from_client { (&mut c, &mut s, s_src) } else { (&mut s, &mut c, c_src) };
@@ -206,6 +235,9 @@ pub async fn run_script(sc: &Script) -> Option<Outcome> {
     }
     if let (Some(kc), Some(ks)) = (c.ep.keys(), s.ep.keys()) {
         if kc != ks { fails.push(("conv:both-connected-different-keys".into(), text.clone())); }
+        if c.ep.srtp_profile() != s.ep.srtp_profile() { fails.push(("conv:both-connected-different-profile".into(), text.clone())); }
+        let (xc, xs) = (c.ep.dtls.export_keying_material("EXTRACTOR-dtls_srtp", 60).ok(), s.ep.dtls.export_keying_material("EXTRACTOR-dtls_srtp", 60).ok());
+        if xc.is_none() || xc != xs { fails.push(("conv:both-connected-different-exporter-output".into(), text.clone())); }
         tags.push("both_connected".into());
     }
     if c.ep.letter() == 'C' { tags.push("client_connected".into()); }
